@@ -24,7 +24,7 @@ CLAIMS = {
    "Crash model is process kill (completed system calls survive; goProbe never fsyncs, power loss is out of scope). simfs is validated against the kernel by a differential self-test. Known findings (known_findings.json) are reported as KNOWN-FINDING and do not stop the run."),
  "C01": ("store-sim", "exploration", "7.1",
    "deterministic simulation: seeded histories of write sessions with restarts over a simulated disk, read back through the real reader against a reference store model",
-   "Seeded histories of 2-6 raw write sessions (arbitrary column payloads from 0 B to 300 KiB biased to the 4 KiB bufio / 8 KiB scratch buffer sizes, compressible and incompressible, lz4/zstd/null, levels 0-12, several days and interfaces, process restart between sessions) followed by flow-level write-outs; after every session every block written so far is read back through the real reader (default and read-all mode, forward and reverse block order) and compared byte for byte, with per-block and per-day summaries, against the model.",
+   "Seeded histories of 2-6 raw write sessions (arbitrary column payloads from 0 B to 300 KiB biased to the 4 KiB bufio / 8 KiB scratch buffer sizes, compressible and incompressible, lz4/zstd/null, levels 0-12, several days and interfaces, process restart between sessions) followed by flow-level write-outs; some sessions write no block at all; after every session every block written so far is read back through the real reader (default mode forwards, read-all mode backwards, default mode in zigzag order with a block read twice) and compared byte for byte, with per-block and per-day summaries, against the model.",
    "Sampled, not exhaustive. Fault-free configuration (faults are C04/C05). cgo encoders (the native builds are C02)."),
  "C02": ("store-sim", "exploration", "7.2",
    "deterministic simulation: restart into a differently built binary over one simulated disk image - the cgo and the pure-Go compression back ends of the current tree are compiled into one harness binary through a build-time seam on encoder.New, the simulator decides per write session and per reader which of the four build configurations the (re)started process is; read back through the real reader and query engine against a reference store model",
@@ -64,15 +64,15 @@ CLAIMS = {
    "Days are generated clearly complete or clearly partial so the oracle does not mirror the completeness heuristic's tolerance arithmetic."),
  "C25": ("merge-sim", "fault_enumeration", "7.25",
    "deterministic simulation with fault injection: process kill enumerated at every structural file-system operation (and sampled, partly torn, data writes) of real merges; post-crash oracle through the real query engine, listing and a later merge",
-   "For each generated pair the merge is killed before every mkdir/create/rename/remove/chmod (capped at 120, thorough 600; renames and removes always kept) and at sampled writes (half torn). After each distinct post-crash disk state: interface listing returns exactly real interfaces, an any-query succeeds, every (interface, day) returns either its pre-merge rows or its merged rows through the real engine, and a later uninterrupted merge succeeds and yields M_merge.",
+   "For each generated pair the merge is killed before every mkdir/create/rename/remove/chmod (capped at 120, thorough 600; renames and removes always kept) and at sampled writes (half torn). After each distinct post-crash disk state: interface listing returns exactly real interfaces, an any-query succeeds, every (interface, day) returns either its pre-merge rows or its merged rows through the real engine (a day that returns nothing is judged before the known leftover classes), and a later uninterrupted merge succeeds and yields M_merge.",
    "Crash model is process kill. Data writes of large days are sampled; structural operations are enumerated."),
  "C26": ("store-sim", "exploration", "7.26",
    "deterministic simulation: generated CSV files read through a simulated file that returns drawn chunk sizes per read; real importer; destination queried through the real engine and compared with the reference model",
-   "Generated CSV files (permuted schemas with/without iface column, header or --schema, IPv4/IPv6 rows, padded cells, eight kinds of malformed rows, duplicate keys, time regressions, MaxRows) are imported twice with different read chunking (1..4096 bytes per read): RowsRead = RowsImported + RowsSkipped and equal the model's counts, the destination holds exactly the accepted rows (summed per key), time regressions are rejected, the result does not depend on the chunking.",
+   "Generated CSV files (permuted schemas with/without iface column, header or --schema, IPv4/IPv6 rows, padded cells, eight kinds of malformed rows, duplicate keys, time regressions, MaxRows) are imported twice with different read chunking (1..4096 bytes per read): RowsRead = RowsImported + RowsSkipped and equal the model's counts, the destination holds exactly the accepted rows (summed per key) - also for queries that start or end at a day boundary of the imported data -, time regressions are rejected, the result does not depend on the chunking.",
    "Short reads are injected only on the CSV input, never on database files."),
  "C30": ("query-sim", "exploration", "7.30",
    "deterministic simulation: writer and reader processes on one simulated disk, seeded scheduler interleaves their file-system operations; recorded history (start/end step of every write-out and query) checked for per-day prefix consistency against the reference model",
-   "A writer performs 1-4 write-outs (some crossing a day/month/year boundary; every commit renames the day directory) while a reader runs 1-3 queries with time labels or listings; the scheduler decides at every file-system operation of either process who proceeds. Oracle: no error, no corrupted blocks, per day a prefix of the committed blocks bounded by [completed before the query started, started before it ended], every visible block exactly as written.",
+   "A writer performs 1-4 write-outs (some crossing a day/month/year boundary; every commit renames the day directory) while a reader runs 1-3 queries with time labels or listings (upper bound far in the future, or on / between the blocks being written); in one run of six the range holds 31 older days, so that a day the writer starts is alone in a work bulk; the scheduler decides at every file-system operation of either process who proceeds. Oracle: no error, no corrupted blocks, per day a prefix of the committed blocks bounded by [completed before the query started, started before it ended], every visible block exactly as written.",
    "The model-checked clause of the statement is a different technique and is not claimed. Interleavings are controlled at file-system operations."),
  "C31": ("query-sim", "exploration", "7.31",
    "deterministic simulation: bursts of client goroutines on query runners sharing one semaphore, seeded scheduler + fake clock (semaphore time-outs), failures after slot acquisition and cancellations injected; history oracle over scheduler steps",
